@@ -322,6 +322,91 @@ def run_better_origin(case) -> str:
     return " ".join(out)
 
 
+_READY = {}
+
+
+def run_readymade(case) -> dict:
+    """A suspended coroutine / generator / async generator waits on a custom item whose unwrap hook hands back ready-made
+    stackscope.Frame objects (with or without an origin of their own)."""
+    import stackscope
+    from stackscope import Frame, unwrap_stackitem
+
+    if "cls" not in _READY:
+        class Delegated:
+            def __init__(self, workers, preset):
+                self.workers, self.preset = workers, preset
+
+            def __await__(self):
+                return self
+
+            def __iter__(self):
+                return self
+
+            def __next__(self):
+                return self
+
+        @unwrap_stackitem.register(Delegated)
+        def _unwrap(d):
+            return [Frame(pyframe=w.gi_frame, origin=(w if d.preset else None)) for w in d.workers]
+
+        _READY["cls"] = Delegated
+
+    def worker(tag):
+        yield tag
+
+    workers = []
+    for i in range(case["workers"]):
+        w = worker(i)
+        next(w)
+        workers.append(w)
+    item = _READY["cls"](workers, case["preset"])
+    kind = case["awaiter"]
+    if kind == "coro":
+        async def awaiter():
+            await item
+        root = awaiter()
+        root.send(None)
+    elif kind == "gen":
+        def awaiter():
+            yield from item
+        root = awaiter()
+        next(root)
+    elif kind == "agen":
+        async def awaiter():
+            await item
+            yield 1
+        root = awaiter()
+        step = root.asend(None)
+        step.send(None)
+    else:
+        root = item
+    problems = []
+    st = stackscope.extract(root, with_contexts=False)
+    if st.error is not None:
+        problems.append(f"unexpected error {st.error!r}")
+    want = ([root] if kind != "item" else []) + workers
+    got = [f.pyframe for f in st.frames]
+    if got != [frame_of(o) for o in want]:
+        problems.append(f"frames {[f.f_code.co_name for f in got]}; expected the awaiter's frame then the {len(workers)} worker frames")
+    p = origin_oracle(st, "ready-made frames: ")
+    if p:
+        problems.append(p)
+    owners = {id(frame_of(root)): root} if kind != "item" else {}
+    p = suspended_origin_oracle(st, owners, "ready-made frames: ")
+    if p:
+        problems.append(p)
+    if case["preset"]:
+        for f, w in zip(st.frames[len(st.frames) - len(workers):], workers):
+            if f.origin is not w:
+                problems.append("a ready-made Frame lost the origin its hook gave it")
+    if kind == "agen":
+        try:
+            step.close()
+        except Exception:
+            pass
+    return {"with_origin": sum(f.origin is not None for f in st.frames), "problems": problems[:3]}
+
+
 def run_overlap(case) -> dict:
     """extract_outermost(x) = extract(x).frames[0] also while ANOTHER thread is in the middle of an extraction with the opposite
     options, the two overlapping non-LIFO (the other one starts after this one and ends after it): forced with events."""
@@ -431,6 +516,10 @@ class C16(PropCheck):
         for nk in (1, 2, 4):
             for wrapped in (False, True):
                 out.append({"k": "taskset", "nkids": nk, "wrapped": wrapped})
+        for aw in ("coro", "gen", "agen", "item"):
+            for nw in (1, 2):
+                for preset in (False, True):
+                    out.append({"k": "readymade", "awaiter": aw, "workers": nw, "preset": preset})
         out.append({"k": "better_origin", "pairs": [[c, f] for c in ORIGIN_KINDS if c != "none" for f in ORIGIN_KINDS]})
         for wc in (True, False):
             for first in ("outermost", "extract"):
@@ -469,7 +558,8 @@ class C16(PropCheck):
                 for d in case["items"]:
                     if d["kind"] == "gen":
                         owners[id(w.objs[d["frame"]])] = w.objs[d["id"]]
-                self._last = (origin_oracle(st) or suspended_origin_oracle_env(st, owners, w))
+                self._last = (origin_oracle(st) or suspended_origin_oracle_env(st, owners, w)
+                              or exclusive_origin_oracle_env(st, case, w))
                 return w.show_stack(st)
             self._last = outermost_oracle(x, with_contexts=False)
             try:
@@ -495,6 +585,8 @@ class C16(PropCheck):
             return run_overlap(case)
         if case["k"] == "better_origin":
             return run_better_origin(case)
+        if case["k"] == "readymade":
+            return run_readymade(case)
         raise ValueError(case["k"])
 
     def canon(self, case, real):
@@ -554,6 +646,38 @@ def suspended_origin_oracle_env(st, owners, w):
     for f in st.frames:
         if f.origin is not None and owners.get(id(f.pyframe)) is not f.origin:
             return f"frame {w.ids.get(id(f.pyframe))} has origin {w.show_origin(f.origin)} which does not own it"
+    return None
+
+
+def _ints(x, out):
+    if isinstance(x, bool):
+        return
+    if isinstance(x, int):
+        out.add(x)
+    elif isinstance(x, (list, tuple)):
+        for y in x:
+            _ints(y, out)
+    elif isinstance(x, dict):
+        for y in x.values():
+            _ints(y, out)
+
+
+def exclusive_origin_oracle_env(st, case, w):
+    """The strong direction, where the case itself settles it: a generator's frame that no hook result, no unwrap result and
+    no root names directly can only have been reached by looking inside the generator object, so its origin is that object."""
+    named = {case["x"]}
+    for d in case["items"]:
+        _ints(d.get("uw"), named)
+        _ints(d.get("el"), named)
+        if d["kind"] == "gen":
+            _ints(d.get("yf"), named)
+    for d in case["items"]:
+        if d["kind"] == "gen" and d["frame"] not in named:
+            fr, own = w.objs[d["frame"]], w.objs[d["id"]]
+            for f in st.frames:
+                if f.pyframe is fr and f.origin is not own:
+                    return (f"frame {d['frame']} can only have been found inside suspended generator {d['id']} "
+                            f"(nothing else names it) but its origin is {w.show_origin(f.origin)}")
     return None
 
 
